@@ -311,6 +311,20 @@ func DoEcDh(localPrivate []byte, remotePublic *EcPoint, ec elliptic.Curve) *EcPo
 	return &point
 }
 
+// EcSharedSecretX returns the x-coordinate of an ECDH result as a fixed-length octet
+// string (field size of the curve), as required for the key derivation input by
+// BSI TR-03111 (FE2OS) / ICAO 9303-11. NB big.Int.Bytes() would drop leading zero octets.
+func EcSharedSecretX(ec elliptic.Curve, point *EcPoint) []byte {
+	fieldLen := (ec.Params().P.BitLen() + 7) / 8
+	out := point.X.Bytes()
+	if len(out) < fieldLen {
+		padded := make([]byte, fieldLen)
+		copy(padded[fieldLen-len(out):], out)
+		out = padded
+	}
+	return out
+}
+
 func RsaDecryptWithPublicKey(ciphertext []byte, publicKey RsaPublicKey) ([]byte, error) {
 	if len(ciphertext) < 1 {
 		return nil, fmt.Errorf("[RsaDecryptWithPublicKey] ciphertext too short (len:%01d)", len(ciphertext))
